@@ -183,7 +183,19 @@ def features(lines):
 # ------------------------------------------------------------------------------------------------
 # C03 / C01
 # ------------------------------------------------------------------------------------------------
-def sess_c03(seed, profile='main', dots=False):
+def sess_c03(seed, profile='main', dots=False, ext=False):
+    if ext:
+        # documents of the EXTENDED row machine: add-spine operators with the line that names the new spine, several sections
+        from . import extras
+        r = random.Random(seed)
+        lines = extras.ext_document(r)
+        while lines[-1]['ev'] == 'unsupported':
+            lines = extras.ext_document(r)
+        evs, doc, text = session.record_import(lines)
+        if doc is not None:
+            for enc in ('kern', 'ekern'):
+                evs.append(session.record_call(doc, {'op': 'dumps', 'args': session.dumps_args(enc=enc), 'exact': True}))
+        return finish_session(lines, evs, text, seed, features(lines) | {'extended-machine'})
     if dots:
         # cells that LOOK like null tokens but are not ('...', '..', '.*'): verbatim, and their lines are not all-null lines
         saved = dict(gen.OWNPOOL)
